@@ -103,6 +103,13 @@ class _Expr(ast.NodeTransformer):
             none = lambda e: e is None or (isinstance(e, ast.Constant) and e.value is None)
             sl = ast.Slice(lower=None if none(lo) else lo, upper=None if none(hi) else hi, step=None)
             return ast.copy_location(ast.Subscript(value=node.args[0], slice=sl, ctx=ast.Load()), node)
+        # C32: tuple(E(v) for v in (L1, L2, ...)) / list(...)  ->  (E(L1), E(L2), ...): a comprehension over a short literal display
+        if isinstance(node.func, ast.Name) and node.func.id in ('tuple', 'list') and len(node.args) == 1 and not node.keywords \
+                and isinstance(node.args[0], (ast.GeneratorExp, ast.ListComp)):
+            un = _unroll_comp(node.args[0])
+            if un is not None:
+                cls = ast.Tuple if node.func.id == 'tuple' else ast.List
+                return ast.copy_location(cls(elts=un, ctx=ast.Load()), node)
         # C13: x.startswith(('a', 'b')) -> x.startswith('a') or x.startswith('b')   (x a plain name / attribute chain)
         f = node.func
         if isinstance(f, ast.Attribute) and f.attr in ('startswith', 'endswith') and len(node.args) == 1 and not node.keywords \
@@ -405,6 +412,36 @@ def _hoist_walrus(s, out):
 
 
 _MATCH_COUNTER = [0]
+
+
+def _unroll_comp(comp):
+    """elements of `E(v) for v in (L1, ..., Ln)` (one generator, no conditions, n <= 8, every Li a literal without effects and
+    v a plain name that E does not rebind), or None."""
+    import copy
+    if len(comp.generators) != 1:
+        return None
+    g = comp.generators[0]
+    if g.ifs or g.is_async or not isinstance(g.target, ast.Name) or not isinstance(g.iter, (ast.Tuple, ast.List)) \
+            or not (1 <= len(g.iter.elts) <= 8):
+        return None
+
+    def lit(e):
+        return isinstance(e, ast.Constant) or (isinstance(e, (ast.Tuple, ast.List)) and all(lit(x) for x in e.elts))
+    if not all(lit(e) for e in g.iter.elts):
+        return None
+    v = g.target.id
+    if any(isinstance(x, (ast.NamedExpr, ast.Lambda, ast.GeneratorExp, ast.ListComp, ast.SetComp, ast.DictComp))
+           for x in ast.walk(comp.elt)):
+        return None
+    out = []
+    for L in g.iter.elts:
+        class T(ast.NodeTransformer):
+            def visit_Name(self, node):
+                if node.id == v and isinstance(node.ctx, ast.Load):
+                    return ast.copy_location(copy.deepcopy(L), node)
+                return node
+        out.append(T().visit(copy.deepcopy(comp.elt)))
+    return out
 
 
 def _pure_subject(e):
